@@ -32,7 +32,10 @@ def head_info(stream):
     if i < 0:
         return {"err": 0, "cl": 0, "chunked": False}
     p = HTTPRequestParser(Adjustments())
-    p.received(stream[: i + 4])
+    try:
+        p.received(stream[: i + 4])
+    except Exception as e:       # the parser must not raise (C06): reported by model_check
+        return {"err": 0, "cl": 0, "chunked": False, "raised": repr(e)[:200]}
     err = getattr(p.error, "code", 0) if p.error is not None else 0
     return {"err": int(err), "cl": int(p.content_length or 0) if not p.chunked else 0, "chunked": bool(p.chunked)}
 
@@ -120,6 +123,11 @@ def model_check(chk, pid):
             seen.add(k)
             uniq.append(it)
     items = uniq
+    for it in items:
+        if it["ph"].get("raised"):
+            chk.violation({"kind": "parser_raised"}, "HTTPRequestParser.received raised %s on the head of %r (%s)" % (it["ph"]["raised"], it["w"][:120], it["name"]),
+                          replay={"stream": list(it["w"])})
+    items = [it for it in items if not it["ph"].get("raised")]
     wd = tlc.scratch("pars")
     try:
         with open(os.path.join(wd, "MC_Pars.tla"), "w") as f:
